@@ -4,16 +4,32 @@ import graphs as gr
 PROP = "C11"
 RULE = ("every acyclic ADMG(n) and ancestral ANC(n) graph, n<=3 quick / n<=4 thorough, every node pair (x,y) (ordered for n<=3, "
         "x<y for n=4, adjacent or not), every I inside R inside V-{x,y}, every candidate Z inside V-{x,y}; the n<=3 stream is "
-        "repeated under the label families str (multi-character), tuple, char, frozenset, bigint; random graphs 5<=n<=7 with "
+        "repeated under the label families str (multi-character), tuple, char, frozenset, bigint; quick also every ANC(4) graph with an "
+        "undirected edge; 60/600 seeded 5-6 node ancestral graphs with an undirected chain of >= 3 nodes; random graphs 5<=n<=7 with "
         "3 pairs, random I inside R and every Z between I and R. distinct by (canonical graph, label family); non-trivial = "
         "some query has a non-empty minimal separator and some query has none")
-EXHAUSTIVE = {"quick": "ADMG(n), ANC(n) n<=3 and DAG(4): all (x,y), I<=R<=V-{x,y}, Z<=V-{x,y}", "thorough": "same, n<=4"}
+EXHAUSTIVE = {"quick": "ADMG(n), ANC(n) n<=3, DAG(4) and ANC(4) with an undirected edge: all (x,y), I<=R<=V-{x,y}, Z<=V-{x,y}", "thorough": "same, n<=4"}
 TRUSTED = ["networkx copy / remove_node / neighbors taken at face value",
            "judgement of the returned set is by the brute-force oracle msep_dec (n<=4..5) and by the C01 model msep_model (larger)"]
 ASSUMPTIONS = ["default edge-type names", "acyclic directed layer (domain of C01)", "I inside R inside V-{x,y} (quantifier of C11)"]
-LEVEL_TEXT = ""
-LEVEL_NOTE = ""
-TECHNIQUE = ""
+LEVEL_TEXT = ("Coq theorems about the executable model minsep_model / is_minsep_model (transcription of the code with the repairs of "
+              "fix proposals C11-02, C11-03 built in, on top of the C01 model msep_model and the C12 model of the moral graph), all "
+              "closed under the global context. UNBOUNDED (all graphs): minsep_sound_partial (a returned Z has I <= Z <= R, avoids "
+              "x and y and passed msep_model on the anterior graph given the whole Z) and is_minsep_sound_partial. BOUNDED by kernel "
+              "computation against the path definition of m-separation (msep, via the proved oracle msep_dec, subsets by sublists): "
+              "None <-> no separator between I and R; Some Z -> Z separates and no proper subset containing I does; is_minsep_model = 1 "
+              "exactly for those Z -- for ALL graphs of the C01 domain on <= 3 nodes, all x<>y, all I <= R <= V-{x,y}, all Z "
+              "(minsep_bounded_3), and the minsep clauses for all DAGs on 4 nodes (minsep_bounded_dag_4). REFUTED for the code as it "
+              "stood: minsep_asis_unsound_refuted, minsep_asis_incomplete_refuted. NOT proved for all sizes: completeness, minimality, "
+              "exactness (full statements kept in C11/Spec.v); 4-node ADMG/ancestral graphs (thorough tier, exhaustive) and larger "
+              "random graphs are covered by correspondence only. Label-type clause (x, y single nodes whatever their type): by "
+              "correspondence under label families int, multi-character str, tuple, char, frozenset, bigint.")
+LEVEL_NOTE = ("on unchanged /repo the check reports VIOLATIONs (three genuine defects, fix proposals fixes/C11-01..03, to be applied in "
+              "order); with them quick and thorough tiers are green. is_minimal_m_separator raising NetworkXError for a call with "
+              "I not inside Z or Z not inside R is accepted as 'not True'.")
+TECHNIQUE = ("Coq proof (structural soundness, unbounded) + bounded kernel computation over a verified finite enumeration with "
+             "brute-force subset enumeration (n<=3; DAGs n=4) + refutation lemmas for the old behaviour + extracted-model "
+             "correspondence judged by the brute-force oracle")
 LABS = ["str", "tuple", "char", "frozenset", "bigint"]
 SPOT_N = 12
 
@@ -50,6 +66,32 @@ def queries_rand(nodes, rng, npairs=3):
     return qs
 
 
+def und_chain_graph(rng, n):
+    """ancestral graph on n nodes with an undirected chain u1 - ... - uk (k = 3..n-1, plus an occasional chord); the remaining
+    nodes carry random ADMG kinds among themselves and receive directed edges from chain nodes (no arrowhead at a chain node)"""
+    nodes = list(range(n))
+    rng.shuffle(nodes)
+    k = rng.randint(3, max(3, n - 1))
+    chain, rest = nodes[:k], nodes[k:]
+    g = {"V": list(range(n)), "D": [], "B": [], "U": [], "C": []}
+    for a, b in zip(chain, chain[1:]):
+        g["U"].append(sorted([a, b]))
+    if k >= 4 and rng.random() < 0.3:
+        g["U"].append(sorted([chain[0], chain[2]]))
+    for i, a in enumerate(rest):
+        for b in rest[i + 1:]:
+            r = rng.random()
+            if r < 0.3:
+                g["D"].append([a, b])
+            elif r < 0.45:
+                g["B"].append(sorted([a, b]))
+    for u in chain:
+        for v in rest:
+            if rng.random() < 0.3:
+                g["D"].append([u, v])
+    return g, chain, rest
+
+
 def gen_cases(tier, rng):
     nmax = 3 if tier == "quick" else 4
     small = []
@@ -66,6 +108,19 @@ def gen_cases(tier, rng):
         # one exhaustive 4-node class also in the quick tier (the Z' defect needs four nodes)
         for g in gr.enum_dag(4):
             yield {"kind": "dag4", "g": g, "qs": queries_all(g["V"], ordered=False), "oracle": True}
+        # ... and every 4-node ancestral graph with an undirected edge (anterior closure over undirected edges)
+        for g in gr.enum_anc(4):
+            if g["U"]:
+                yield {"kind": "anc4", "g": g, "qs": queries_all(g["V"], ordered=False), "oracle": True}
+    # undirected chains: anterior nodes reachable only over two or more consecutive undirected edges
+    for i in range(60 if tier == "quick" else 600):
+        n = rng.randint(5, 6)
+        g, chain, rest = und_chain_graph(rng, n)
+        qs = queries_rand(g["V"], rng, npairs=2)
+        x, y = chain[0], (chain[-1] if i % 2 == 0 or not rest else rest[-1])
+        others = [v for v in g["V"] if v not in (x, y)]
+        qs.append([x, y, [], others, [list(z) for z in gr.subsets(others)]])
+        yield {"kind": "undchain", "g": g, "qs": qs, "oracle": True}
     # label families: the failure "node used as an iterable" depends on the label type
     for j, c in enumerate(small):
         for lab in LABS:
